@@ -1321,3 +1321,206 @@ func TabAccType(p *load.Program) *report.RuleResult {
 	}
 	return r
 }
+
+// ---------------------------------------------------------------------------
+// OWN-RESLICE0
+
+// OwnReslice0 implements OWN-RESLICE0: s[:0] keeps s's backing array, so it
+// must not be put where appends happen while the old contents are still held.
+func OwnReslice0(sc Scope) func(p *load.Program) *report.RuleResult {
+	return func(p *load.Program) *report.RuleResult {
+		r := newResult("OWN-RESLICE0", "in the "+sc.Name+", a slice emptied by reslicing (s[:0], which keeps the backing array) is not stored into a field or global while a value read from the same place is still used afterwards: the next append through the field overwrites the elements the saved copy refers to (setting it aside needs nil or a copy)", 0)
+		for _, fn := range sortedFuncs(p) {
+			if !sc.has(p, fn) || len(fn.Blocks) == 0 {
+				continue
+			}
+			for _, b := range fn.Blocks {
+				for _, in := range b.Instrs {
+					sl, ok := in.(*ssa.Slice)
+					if !ok {
+						continue
+					}
+					if _, isSlice := sl.X.Type().Underlying().(*types.Slice); !isSlice {
+						continue
+					}
+					if k, ok := ssau.ConstInt(sl.High); !ok || k != 0 {
+						continue
+					}
+					// stored to a field or global?
+					var store *ssa.Store
+					for _, ref := range *sl.Referrers() {
+						if st, ok := ref.(*ssa.Store); ok && st.Val == ssa.Value(sl) {
+							switch st.Addr.(type) {
+							case *ssa.FieldAddr, *ssa.Global:
+								store = st
+							}
+						}
+					}
+					name := p.FuncName(fn)
+					what := describeOperand(sl.X) + "[:0]"
+					if store == nil {
+						r.OK(name, instrPos(p, sl), what, "the emptied slice stays local")
+						continue
+					}
+					path := ssau.Path(sl.X)
+					bad := ""
+					for _, b2 := range fn.Blocks {
+						for _, in2 := range b2.Instrs {
+							v, ok := in2.(ssa.Value)
+							if !ok || ssau.Path(v) != path || v.Referrers() == nil {
+								continue
+							}
+							for _, ref := range *v.Referrers() {
+								if ref == ssa.Instruction(sl) {
+									continue
+								}
+								if _, ok := ref.(*ssa.DebugRef); ok {
+									continue
+								}
+								if ssau.IsBuiltinCall(ref, "len") || ssau.IsBuiltinCall(ref, "cap") {
+									continue
+								}
+								if reachesInstrAvoiding(store, ref, func(ssa.Instruction) bool { return false }) {
+									bad = instrPos(p, ref)
+								}
+							}
+						}
+					}
+					if bad == "" {
+						r.OK(name, instrPos(p, sl), what, "nothing read from this place before the reslice is used after it")
+					} else {
+						r.Bad(name, instrPos(p, sl), what, "the old contents, read from the same place, are still used at "+bad+" after the emptied slice (same backing array) was stored: an append through the field in between overwrites them")
+					}
+				}
+			}
+		}
+		return r
+	}
+}
+
+// ---------------------------------------------------------------------------
+// TAB-ESCRUNE
+
+// TabEscRune implements TAB-ESCRUNE: the code point an escape denotes in a
+// string or symbol is written as a code point.
+func TabEscRune(p *load.Program) *report.RuleResult {
+	r := newResult("TAB-ESCRUNE", "the rune that readEscapedChar returns for text that is not a clob (its mode argument is not the constant true) is never narrowed to a byte: in a string or symbol \\xHH denotes the code point U+00HH, which above 0x7F is two bytes of UTF-8; only in a clob does an escape denote one byte", 2)
+	target := p.Func(nil, "tokenizer.readEscapedChar")
+	if target == nil {
+		missing(r, "tokenizer.readEscapedChar", "method not found")
+		return r
+	}
+	for _, fn := range sortedFuncs(p) {
+		if !ScopeText.has(p, fn) || len(fn.Blocks) == 0 {
+			continue
+		}
+		for _, b := range fn.Blocks {
+			for _, in := range b.Instrs {
+				c, ok := in.(*ssa.Call)
+				if !ok || load.Unwrap(c.Call.StaticCallee()) != target {
+					continue
+				}
+				name := p.FuncName(fn)
+				mode := c.Call.Args[len(c.Call.Args)-1]
+				// the mode agrees with the kind of text the (outermost constant-passing) caller reads
+				for _, rm := range resolveBoolArg(p, fn, mode, 0) {
+					isClobFn := strings.Contains(strings.ToLower(rm.fn.Name()), "clob")
+					what := "escape mode passed by " + p.FuncName(rm.fn)
+					switch {
+					case !rm.known:
+						r.Unknown(p.FuncName(rm.fn), instrPos(p, rm.at), what, "the mode is not a constant at any caller within three levels")
+					case rm.val == isClobFn:
+						r.OK(p.FuncName(rm.fn), instrPos(p, rm.at), what, sprintf("mode %v in a function that reads %s", rm.val, map[bool]string{true: "a clob", false: "a string or symbol"}[isClobFn]))
+					default:
+						r.Bad(p.FuncName(rm.fn), instrPos(p, rm.at), what, sprintf("mode clob=%v is passed by a function that reads %s: \\u escapes are %s there and \\x above 7F is decoded by the wrong rule", rm.val, map[bool]string{true: "a clob", false: "a string or symbol"}[isClobFn], map[bool]string{false: "accepted although clobs forbid them", true: "refused although text allows them"}[rm.val]))
+					}
+				}
+				if k, ok := mode.(*ssa.Const); ok && k.Value != nil && constant.BoolVal(k.Value) {
+					r.OK(name, instrPos(p, c), "escape read in clob mode", "one byte per escape is the clob rule")
+					continue
+				}
+				bad := ""
+				var walk func(v ssa.Value, d int)
+				walk = func(v ssa.Value, d int) {
+					if d > 4 || v.Referrers() == nil {
+						return
+					}
+					for _, ref := range *v.Referrers() {
+						switch x := ref.(type) {
+						case *ssa.Extract:
+							if x.Index == 0 {
+								walk(x, d+1)
+							}
+						case *ssa.Phi:
+							walk(x, d+1)
+						case *ssa.Convert:
+							if tr, ok := typeRange(x.Type()); ok && tr.hi.Cmp(big.NewInt(0x10FFFF)) < 0 {
+								bad = instrPos(p, x)
+							}
+						}
+					}
+				}
+				walk(c, 0)
+				if bad == "" {
+					r.OK(name, instrPos(p, c), "escape read in text mode", "the rune is not narrowed")
+				} else {
+					r.Bad(name, instrPos(p, c), "escape read in text mode", "the code point is narrowed at "+bad+": \"\\xE9\" becomes the single byte E9, which is not UTF-8 for U+00E9")
+				}
+			}
+		}
+	}
+	return r
+}
+
+type resolvedMode struct {
+	fn    *ssa.Function
+	at    ssa.Instruction
+	val   bool
+	known bool
+}
+
+// resolveBoolArg follows a bool argument back through parameters of module
+// functions to the call sites that pass a constant.
+func resolveBoolArg(p *load.Program, fn *ssa.Function, v ssa.Value, depth int) []resolvedMode {
+	at := ssa.Instruction(nil)
+	if len(fn.Blocks) > 0 && len(fn.Blocks[0].Instrs) > 0 {
+		at = fn.Blocks[0].Instrs[0]
+	}
+	if k, ok := v.(*ssa.Const); ok && k.Value != nil && k.Value.Kind() == constant.Bool {
+		return []resolvedMode{{fn, at, constant.BoolVal(k.Value), true}}
+	}
+	prm, ok := v.(*ssa.Parameter)
+	if !ok || depth > 3 {
+		return []resolvedMode{{fn, at, false, false}}
+	}
+	idx := -1
+	for i, q := range fn.Params {
+		if q == prm {
+			idx = i
+		}
+	}
+	var out []resolvedMode
+	for _, caller := range sortedFuncs(p) {
+		if p.InTest(caller) {
+			continue
+		}
+		for _, b := range caller.Blocks {
+			for _, in := range b.Instrs {
+				c, ok := in.(ssa.CallInstruction)
+				if !ok || load.Unwrap(c.Common().StaticCallee()) != fn || idx >= len(c.Common().Args) {
+					continue
+				}
+				for _, rm := range resolveBoolArg(p, caller, c.Common().Args[idx], depth+1) {
+					if rm.fn == caller {
+						rm.at = in
+					}
+					out = append(out, rm)
+				}
+			}
+		}
+	}
+	if len(out) == 0 {
+		return []resolvedMode{{fn, at, false, false}}
+	}
+	return out
+}
